@@ -264,6 +264,10 @@ def check(prog, res, tier):
             return [definite('constructor raises')] if p.outcome == 'raise' else []
         rv = p.value.fields.get('random_value')
         if rv is None:
+            r_ = p.value.cls.lookup('random_value')
+            if r_ is not None and r_[0] == 'attr':
+                return [definite('the random fill is a class attribute: it is drawn once, when the class body runs at import, and every '
+                                 'block built without an explicit fill shares the same 64 bits', firm=True)]
             # not an attribute the constructor sets (a property, a lazily drawn value ...): where the fill comes from is not
             # what this rule follows
             return [soft('the constructor does not store the random fill as random_value: how the fill is drawn was not followed')]
